@@ -84,6 +84,9 @@ class Modular:
             if is_int(ln) and is_int(init) and is_int(cap):
                 ok = st.get_iv(ln)[0] >= 0 and st.diff_le(ln, init, 0) and st.diff_le(init, cap, 0)
                 detail = "length %s initialised prefix %s capacity %s" % (st.get_iv(ln), st.get_iv(init), st.get_iv(cap))
+                if not ok and os.environ.get("MLX_DEBUG"):
+                    print("INVDBG ln", ln, G.df.get(ln), "init", init, G.df.get(init), "cap", cap, "len<=init", st.diff_le(ln, init, 0), "init<=cap", st.diff_le(init, cap, 0),
+                          [(k, v) for k, v in st.facts.items() if init in k or ln in k], file=sys.stderr)
             self.ctx.oblige("vector-invariant " + what, ok, inst, span, detail)
             return
         ln = st.env.get(vkey + (("f", 1),))
